@@ -230,6 +230,31 @@ def targeted_jobs(chk, cmp=CMP_SPEND):
         r, s = btc.ecdsa_sign(sec, btc.sighash_legacy(c.tx, 0, spk, 1))
         c.tx.vin[0].script_sig = sig_prefix + push(btc.der_encode(r, s) + b"\x01")
         add("frame-carry:%d" % rep, c.tx, c.funding, [f for f in STANDARD if f != "SIGPUSHONLY"])
+    # several inputs spending different outputs of the SAME funding transaction: each selection must take amount and locking script
+    # from the output that input refers to (no signatures: the locking scripts tell the outputs apart)
+    for rep in range(2):
+        outs = [btc.TxOut(1000 * (k + 1), bytes([0x51 + k, OP["EQUAL"]])) for k in range(3)]
+        funding = btc.Tx(version=2, vin=[btc.TxIn(rb(rng, 32), 0, b"\x51", 0xffffffff)], vout=outs)
+        order = [2, 0, 1] if rep else [0, 1, 2]
+        tx = btc.Tx(version=2, vin=[btc.TxIn(funding.txid(), k, bytes([0x51 + k]), 0xffffffff) for k in order] + [btc.TxIn(rb(rng, 32), 1, b"\x51", 0xffffffff)],
+                    vout=[btc.TxOut(500, b"\x51")])
+        for sel in (-1, 0, 1, 2, 3):
+            add("same-funding:%d:sel%d" % (rep, sel), tx, funding, [f for f in STANDARD if f != "CLEANSTACK"], select=sel)
+    # witness items whose hex text could be read as something else (decimal digits only, opcode-like, 'e'-notation): they are bytes
+    items = [b"\x51", b"\x12\x34", b"\x10", b"\x99", b"\x10\x00\x00", b"\x01\xe3", b"\x00", b"\x00\x51"]
+    for typ in ("p2wsh", "p2tr-script"):
+        ws = b"".join(push(it) + O("EQUALVERIFY") for it in reversed(items)) + b"\x51"
+        if typ == "p2wsh":
+            c = SpendCase(rng, "p2wsh", "valid", 1, 0, 0)
+            c.funding.vout[0] = btc.TxOut(c.funding.vout[0].amount, btc.p2wsh(ws)[0]); c.tx.vin[0].prev_txid = c.funding.txid()
+            c.tx.witness[0] = list(items) + [ws]
+        else:
+            internal = btc.xonly_pubkey(rng.randrange(1, btc.N))[0]
+            spk0, info = btc.p2tr(internal, [(ws, 0xc0)])
+            c = SpendCase(rng, "p2tr-key", "valid", 1, 0, 0)
+            c.funding.vout[0] = btc.TxOut(c.funding.vout[0].amount, spk0); c.tx.vin[0].prev_txid = c.funding.txid()
+            c.tx.witness[0] = list(items) + [ws, info["leaves"][0]["control_block"]]
+        add("digit-items:" + typ, c.tx, c.funding)
     # high-S signatures: valid once LOW_S is removed from the flags, refused (SIG_HIGH_S) with the standard set
     for rep in range(2):
         for fl in ([f for f in STANDARD if f != "LOW_S"], STANDARD):
